@@ -53,7 +53,7 @@ THEOREMS = ["SigpyVerif.C15." + t for t in [
     "run_bound_NewtonsMethod", "run_bound_GerchbergSaxton", "stdOps_std", "norm_div_nonpos", "early_stop_fixed_gm_gen",
     "gm_tol_bound", "early_stop_fixed_gm_accel_gen", "whileFuel_inv", "whileFuel_of_not_cond",
     "early_stop_fixed_newton_gen", "newton_tol_bound", "early_stop_fixed_gs", "foldl_stop_eq", "sdmm_stop_iff_partial",
-    "pdhg_tol_bound",
+    "pdhg_tol_bound", "done_nf_sound",
 ] + ["loop_bound_" + c for c in CLASSES]] + ["SigpyVerif.C12.cg_early_stop_fixed", "SigpyVerif.C12.cg_breakdown",
                                               "SigpyVerif.C12.iter_counts_updates",
                                               "SigpyVerif.C13.pdhg_fixed_point_iff_saddle_diag",
